@@ -229,7 +229,7 @@ def small_width_models(ctx, which=("word", "alu")):
 def run_C01(ctx):
     small_width_models(ctx)
     rate = 24 if ctx.quick else 1
-    recs = exec_cases(ctx, "isa", ["alu", "jmp", "far", "farcall", "mem", "cfg"], rate, timeout=1500)
+    recs = exec_cases(ctx, "isa", ["alu", "jmp", "far", "farcall", "mem", "cfg", "calls"], rate, timeout=1500)
     ctx.nontrivial = len({json.dumps(r["case"]["id"]) for r in recs})
     replay_exec(ctx, "isa", recs, ["interp"])
     # direction A: random terminating programs, every step validated
